@@ -82,3 +82,24 @@ func ghostValidKeySpace(s *KeySpace) bool {
 //@ func KeyGroupRange.Contains
 //@   property C05 C06
 //@   ensures result == (other.Start >= r.Start && other.End <= r.End)
+
+func exists(lo, hi int, f func(int) bool) bool {
+	for i := lo; i < hi; i++ {
+		if f(i) {
+			return true
+		}
+	}
+	return false
+}
+
+// AssignRanges: new range t receives exactly the old ranges that overlap it,
+// whatever order the old ranges are listed in (they arrive in the order the old
+// operators acknowledged the checkpoint).
+//@ func AssignRanges
+//@   property C06
+//@   ensures len(result) == len(to)
+//@   ensures forall(0, len(to), func(t int) bool { return forall(0, len(result[t]), func(k int) bool {
+//@           return 0 <= result[t][k] && result[t][k] < len(from) && to[t].Overlaps(from[result[t][k]]) }) })
+//@   ensures forall(0, len(to), func(t int) bool { return forall(0, len(from), func(j int) bool {
+//@           return to[t].Overlaps(from[j]) ==> exists(0, len(result[t]), func(k int) bool { return result[t][k] == j }) }) })
+//@   ensures forall(0, len(to), func(t int) bool { return forall(0, len(result[t]), func(k int) bool { return forall(0, k, func(m int) bool { return result[t][m] < result[t][k] }) }) })
